@@ -8,8 +8,9 @@ day for the part beyond 24:00), contains it, and the state of a minute is obtain
 rules with pointwise overlays.
 
 The only things shared with the model are the calendar (`OH.Model.Cal`), the AST, the context
-record and the resolution of one time bound (`Time.asNaive`: fixed minute, or event + offset with
-the documented fall-back to 00:00 outside 00:00–48:00).
+record, the resolution of one time bound (`Time.asNaive`: fixed minute, or event + offset with
+the documented fall-back to 00:00 outside 00:00–48:00) and the saturating day shift
+(`addDaysSat`/`satNeg`: plain addition, pinned at chrono's extreme dates — see `shift`, `weekdayOk`).
 Core-only imports (the driver evaluates this specification on the implementation's output).
 -/
 namespace OH.Spec
@@ -46,13 +47,17 @@ def dateInstance (ds : DateSpec) (y : Int) (after : Bool) : Option Int :=
         else none
     else none
 
-/-- `+Su` / `-Mo` then `± n days` -/
+/-- `+Su` / `-Mo` then `± n days`.  The property text is silent about shifted days that chrono cannot
+represent (beyond ±262 000 years); the specification adopts the code's reading there: every day shift
+SATURATES at `NaiveDate::MIN` / `NaiveDate::MAX` (`OH.Model.addDaysSat`, the repaired
+`add_days_saturating`), for the day offset and for the weekday shift alike — exactly as `DateOffset::apply`
+does.  Whenever the shifted day is representable this is the plain sum. -/
 def shift (o : DateOffset) (d : Int) : Int :=
-  let d1 := d + o.days
+  let d1 := addDaysSat d o.days
   match o.wday with
   | .none => d1
-  | .prev t => d1 - ((7 + weekday d1 - t) % 7 : Nat)
-  | .next t => d1 + ((7 + t - weekday d1) % 7 : Nat)
+  | .prev t => addDaysSat d1 (-(((7 + weekday d1 - t) % 7 : Nat) : Int))
+  | .next t => addDaysSat d1 (((7 + t - weekday d1) % 7 : Nat) : Int)
 
 /-- how many years around the evaluated day the instances of a shifted bound have to be looked for -/
 def yearSpan (so eo : DateOffset) : Nat := 3 + (so.days.natAbs + eo.days.natAbs) / 365
@@ -119,16 +124,18 @@ def weekOk (r : WeekRange) (d : Int) : Bool :=
   inWrap r.lo r.hi w && (r.step ≠ 0 && (w - r.lo) % r.step == 0)
 
 /-- weekday range, evaluated on the day shifted back by the offset; nth positions count from the
-start and from the end of the month of the shifted day -/
+start and from the end of the month of the shifted day.  The shift saturates at chrono's extreme dates
+like the code's (`add_days_saturating(date, offset.saturating_neg())`): "the weekday of a day chrono
+cannot represent" has no documented meaning, the code's reading is adopted. -/
 def weekdayOk (ctx : Ctx) (r : WeekDayRange) (d : Int) : Bool :=
   match r with
   | .fixed lo hi off ns ne =>
-    let d' := d - off
+    let d' := addDaysSat d (satNeg off)
     let dom := dayOfMonth d'
     let len := daysInMonth (year d') (Cal.month d')
     inWrap lo hi (weekday d') && (ns.getD ((dom - 1) / 7) false || ne.getD ((len - dom) / 7) false)
   | .holiday k off =>
-    (match k with | .pub => ctx.pub | .school => ctx.school).contains (d - off)
+    (match k with | .pub => ctx.pub | .school => ctx.school).contains (addDaysSat d (satNeg off))
 
 def anyOrEmpty {α} (l : List α) (p : α → Bool) : Bool := l.isEmpty || l.any p
 
@@ -242,6 +249,20 @@ def datedWindowRisk (s : DateSpec) (so : DateOffset) (e : DateSpec) (eo : DateOf
 
 def exprWindowRisk (e : Expr) : Bool :=
   e.any (fun r => r.day.monthday.any (fun m => match m with | .date s so e eo => datedWindowRisk s so e eo | _ => false))
+
+/-- Open known finding (class `dated-shift-over-a-year`): a dated range one of whose bounds is moved by
+more than a year (`Jan 01 +400 days-Jan 10 +770 days`, `2020 Jan 1 -100000000 days-Feb 1`).  The code
+pairs the bounds on a fixed window of years around the evaluated day (y-2..y+2 for `filter`, y-2..y+10
+for the hint, y0-1..y0+2 for a yearless end after a start with a year), which such shifts leave: the
+filter disagrees with the documented semantics on some days and with its own hint (so the iterator
+disagrees with `state`).  Hint soundness and the refinement are PROVED for total shifts up to a year
+(OH/Props/C02B.lean `exprHintSafe`, OH/Props/C01.lean `exprDatedPlain`) and refuted beyond
+(`layerB_unscoped_fails`).  The class is decided on the rule alone. -/
+def datedBigShift (_s : DateSpec) (so : DateOffset) (_e : DateSpec) (eo : DateOffset) : Bool :=
+  so.days.natAbs + 6 > 365 || eo.days.natAbs + 6 > 365
+
+def exprBigShift (e : Expr) : Bool :=
+  e.any (fun r => r.day.monthday.any (fun m => match m with | .date s so e eo => datedBigShift s so e eo | _ => false))
 
 /-- every dated range of the expression has a defined meaning -/
 def exprDefined (e : Expr) : Bool :=
